@@ -215,6 +215,7 @@ def step (c : Ctx) (line : String) : Ctx × String :=
   | "phys" :: _ => (c, Uberjob.Phys.drv line)
   | "exec" :: _ => (c, Uberjob.Exec.drv line)
   | "execn" :: _ => (c, Uberjob.Exec.drv line)
+  | "execp" :: _ => (c, Uberjob.Exec.drv line)
   | "notifs" :: _ => (c, Notify.drv line)
   | "rq" :: _ => (c, Queues.drv line)
   | "cplan" :: _ => let (d, r) := Cache.drv c.cache line; ({ c with cache := d }, r)
